@@ -532,77 +532,193 @@ Proof.
     eapply hit_store_proto; eauto.
 Qed.
 
-Local Opaque ordinary_set chain_fuel hit_store.
+(* ------------------------------------------------------------------------------------------- accessor bodies *)
+Lemma heap_op_umono h o outs h' : heap_op h o = Some (outs, h') -> umono h h'.
+Proof.
+  intro H. destruct o; simpl in H; try (inversion H; subst; apply umono_refl);
+    (destruct (get_obj h o); [|inversion H; subst; apply umono_refl]).
+  - destruct (define_own_property h o k d slot_new) as [[[h1 sl] ok]|] eqn:E; [|discriminate].
+    inversion H; subst. eapply dop_umono; eauto.
+  - destruct (ordinary_delete h o k) as [[h1 ok]|] eqn:E; [|discriminate]. inversion H; subst. eapply delete_umono; eauto.
+  - destruct (ordinary_set_prototype_of h o p) as [[h1 ok]|] eqn:E; [|discriminate]. inversion H; subst. eapply setproto_umono; eauto.
+  - destruct (prevent_extensions h o) as [h1|] eqn:E; [|discriminate]. inversion H; subst. eapply prevent_umono; eauto.
+  - destruct (freeze h o) as [[h1 ok]|] eqn:E; [|discriminate]. inversion H; subst. eapply freeze_umono; eauto.
+Qed.
+Lemma apply_ops_umono : forall b h h', apply_ops h b = Some h' -> umono h h'.
+Proof.
+  induction b as [|o r IH]; simpl; intros h h' H; [inversion H; subst; apply umono_refl|].
+  destruct (heap_op h o) as [[outs h1]|] eqn:E; [|discriminate].
+  eapply umono_trans; [eapply heap_op_umono; eauto | eauto].
+Qed.
+Lemma apply_calls_umono : forall ft tr h h', apply_calls ft h tr = Some h' -> umono h h'.
+Proof.
+  induction tr as [|o r IH]; simpl; intros h h' H; [inversion H; subst; apply umono_refl|].
+  destruct o; eauto.
+  destruct (apply_ops h (body_of ft f)) as [h1|] eqn:E; [|discriminate].
+  eapply umono_trans; [eapply apply_ops_umono; eauto | eauto].
+Qed.
 
-Lemma sim_set : forall stc stu n k o v outs_u stu',
+(* ------------------------------------------------------------------------------------------- the decidable "describes" *)
+Lemma slot_eqb_eq a b : slot_eqb a b = true -> a = b.
+Proof.
+  destruct a, b. unfold slot_eqb. simpl. intro H. apply andb_true_iff in H as [H1 H2].
+  apply N.eqb_eq in H1. apply N.eqb_eq in H2. now subst.
+Qed.
+Lemma describes_b_sound kd h k s sl : describes_b kd h k s sl = true -> slot_describes kd h k s sl.
+Proof.
+  unfold describes_b, proto_lookup. destruct (lookup_shape h s k) as [[i a]|] eqn:L0.
+  - intro H. apply andb_true_iff in H as [H1 H2]. apply slot_eqb_eq in H1. left. exists i, a. repeat split; auto.
+    intros -> Ha. simpl in H2. rewrite Ha in H2. exact H2.
+  - destruct (shape_proto h s) as [p|] eqn:P0; [|discriminate].
+    destruct (get_obj h p) as [px|] eqn:Hpx; [|discriminate].
+    destruct (lookup_shape h (o_shape px) k) as [[i a]|] eqn:L1; [|discriminate].
+    intro H. apply andb_true_iff in H as [H1 H2]. apply slot_eqb_eq in H1. right. exists p, px, i, a. repeat split; auto.
+    intros ->. exact H2.
+Qed.
+
+Definition is_bad (o : out) : bool := match o with OBadStore => true | _ => false end.
+Lemma no_bad_ghost l b : existsb is_bad (l ++ ghost b) = false -> b = false.
+Proof. rewrite existsb_app. intro H. apply orb_false_iff in H as [_ H]. destruct b; [discriminate | reflexivity]. Qed.
+Lemma no_bad_ghost2 l1 l2 b : existsb is_bad (l1 ++ l2 ++ ghost b) = false -> b = false.
+Proof. rewrite app_assoc. apply no_bad_ghost. Qed.
+Lemma visible_ghost b : filter visible (ghost b) = [].
+Proof. destruct b; reflexivity. Qed.
+
+(* ------------------------------------------------------------------------------------------- simulation: get sites *)
+Local Opaque ordinary_try_get ordinary_set chain_fuel hit_store apply_calls.
+
+Lemma sim_get : forall rc ft glob stc stu kd n k o outs_u stu',
+  kd <> SSet -> IC_valid stc -> st_heap stc = st_heap stu ->
+  (forall x sl, get_obj (st_heap stc) o = Some x ->
+     fst (fst (ic_get (site_get (st_sites stc) (kd, n, k)) (st_heap stc) k (o_shape x))) = Some sl ->
+     get_regular (st_heap stc) x sl) ->
+  cached_get rc false ft glob stu (kd, n, k) o = Some (outs_u, stu') ->
+  exists outs_c stc', cached_get rc true ft glob stc (kd, n, k) o = Some (outs_c, stc') /\
+    filter visible outs_c = filter visible outs_u /\ st_heap stc' = st_heap stu' /\
+    (existsb is_bad outs_c = false -> IC_valid stc').
+Proof.
+  intros rc ft glob stc stu kd n k o outs_u stu' Hkd Hv Hh Hreg H.
+  unfold cached_get in *. rewrite <- Hh in H. remember (st_heap stc) as h eqn:Eh.
+  destruct (get_obj h o) as [x|] eqn:Hx.
+  2:{ inversion H; subst. exists [ONoObj], stc. repeat split; auto. }
+  destruct (ordinary_try_get (chain_fuel h) h o k slot_new) as [[[tr r] slu]|] eqn:G; [|discriminate].
+  cbn -[apply_calls] in H.
+  destruct (apply_calls ft h tr) as [h1|] eqn:A; [|discriminate]. cbn -[apply_calls] in H.
+  destruct (get_obj h1 o) as [x1|] eqn:Hx1; [|discriminate]. cbn -[apply_calls] in H.
+  pose proof (apply_calls_umono _ _ _ _ A) as Hmono.
+  assert (Hv0 : IC_valid {| st_heap := h; st_sites := st_sites stc |}) by (rewrite Eh; destruct stc; exact Hv).
+  pose proof (IC_valid_heap_step _ h1 Hv0 Hmono) as Hv1. simpl in Hv1.
+  destruct (ic_get (site_get (st_sites stc) (kd, n, k)) h k (o_shape x)) as [[hit c1] ev] eqn:I.
+  destruct (ic_get_spec _ _ _ _ _ _ _ I) as [Hsub Hhit].
+  assert (Hc1 : forall e, In e (c_entries c1) -> entry_ok kd h1 k e).
+  { intros e He. eapply entry_ok_mono; [exact Hmono|]. rewrite Eh. apply (cache_entries_ok stc kd n k Hv e). auto. }
+  destruct hit as [sl|].
+  - destruct (Hhit sl eq_refl) as [-> (e & Hin & Hs & Hsl & Hcur)].
+    pose proof (cache_entries_ok stc kd n k Hv _ Hin) as Hok. rewrite <- Eh in Hok.
+    rewrite <- Hs in Hcur. pose proof (current_entry_describes kd h k e Hok Hcur) as Hd. rewrite Hs, Hsl in Hd.
+    assert (Hr : get_regular h x sl) by (apply (Hreg x sl eq_refl); rewrite I; reflexivity).
+    destruct (get_hit_sim kd h k o x sl tr r slu Hkd Hx Hd Hr G) as [stg [res [Hst [Hn [Ht Hrr]]]]].
+    rewrite Hst, Hn. fold (hit_get_result sl res).
+    destruct (hit_get_result sl res) as [tr' v'] eqn:Ehr. simpl in Ht, Hrr. subst tr r.
+    cbn -[apply_calls]. rewrite A. inversion H; subst; clear H.
+    eexists; eexists; split; [reflexivity|].
+    rewrite !filter_visible_app. simpl. repeat split; auto.
+  - cbn -[apply_calls].
+    destruct (sf_is_cacheable (s_attrs slu)) eqn:Ec.
+    + destruct (ic_set rc kd c1 h1 k (o_shape x1) slu) as [[c' ev'] bad] eqn:Es.
+      assert (Hv' : bad = false -> IC_valid {| st_heap := h1; st_sites := site_put (st_sites stc) (kd, n, k) c' |}).
+      { intro Hb. apply (IC_valid_put {| st_heap := h1; st_sites := st_sites stc |} kd n k c' Hv1). simpl. intros e He.
+        destruct (ic_set_entries _ _ _ _ _ _ _ _ _ _ Es e He) as [Ho | [-> Hbad]]; [auto|].
+        apply fresh_entry_ok. apply describes_b_sound. rewrite Hb in Hbad.
+        destruct (describes_b kd h1 k (o_shape x1) slu); [reflexivity | discriminate]. }
+      destruct r as [v|]; [|destruct glob]; inversion H; subst; clear H;
+        (eexists; eexists; split; [reflexivity|]; rewrite !filter_visible_app; simpl; rewrite visible_ghost;
+         repeat split; auto; intro Hnb; apply Hv'; exact (no_bad_ghost2 tr [_; _] bad Hnb)).
+    + assert (Hv' : IC_valid {| st_heap := h1; st_sites := site_put (st_sites stc) (kd, n, k) c1 |}).
+      { apply (IC_valid_put {| st_heap := h1; st_sites := st_sites stc |} kd n k _ Hv1). auto. }
+      destruct r as [v|]; [|destruct glob]; inversion H; subst; clear H;
+        (eexists; eexists; split; [reflexivity|]; rewrite !filter_visible_app; simpl; repeat split; auto).
+Qed.
+
+(* ------------------------------------------------------------------------------------------- simulation: set sites *)
+Lemma apply_calls_nil ft h : apply_calls ft h [] = Some h.
+Proof. reflexivity. Qed.
+
+Lemma sim_set : forall rc ft stc stu n k o v outs_u stu',
   IC_valid stc -> st_heap stc = st_heap stu ->
   (forall x sl, get_obj (st_heap stc) o = Some x ->
      fst (fst (ic_get (site_get (st_sites stc) (SSet, n, k)) (st_heap stc) k (o_shape x))) = Some sl -> set_regular sl) ->
-  cached_set false stu (SSet, n, k) o v = Some (outs_u, stu') ->
-  exists outs_c stc', cached_set true stc (SSet, n, k) o v = Some (outs_c, stc') /\
-    filter visible outs_c = filter visible outs_u /\ st_heap stc' = st_heap stu' /\ IC_valid stc' /\
-    umono (st_heap stc) (st_heap stc').
+  cached_set rc false ft stu (SSet, n, k) o v = Some (outs_u, stu') ->
+  exists outs_c stc', cached_set rc true ft stc (SSet, n, k) o v = Some (outs_c, stc') /\
+    filter visible outs_c = filter visible outs_u /\ st_heap stc' = st_heap stu' /\
+    (existsb is_bad outs_c = false -> IC_valid stc').
 Proof.
-  intros stc stu n k o v outs_u stu' Hv Hh Hreg H.
+  intros rc ft stc stu n k o v outs_u stu' Hv Hh Hreg H.
   unfold cached_set in H. rewrite <- Hh in H.
   remember (st_heap stc) as h eqn:Eh.
   destruct (get_obj h o) as [x|] eqn:Hx.
-  2:{ inversion H; subst. exists [ONoObj], stc. split; [|repeat split; auto using umono_refl].
+  2:{ inversion H; subst. exists [ONoObj], stc. split; [|repeat split; auto].
       unfold cached_set. rewrite Hx. reflexivity. }
   destruct (ordinary_set (chain_fuel h) h o k v o slot_new) as [[[[tr h'] ok] slu]|] eqn:G; [|discriminate].
-  cbn in H. destruct (get_obj h' o) as [x'|] eqn:Hx'; [|discriminate]. inversion H; subst outs_u stu'; clear H.
-  pose proof (os_umono _ _ _ _ _ _ _ _ _ _ _ G) as Hmono.
+  cbn -[apply_calls] in H.
+  destruct (apply_calls ft h' tr) as [h1|] eqn:A; [|discriminate]. cbn -[apply_calls] in H.
+  destruct (get_obj h1 o) as [x'|] eqn:Hx'; [|discriminate]. cbn -[apply_calls] in H.
+  inversion H; subst outs_u stu'; clear H.
+  pose proof (umono_trans _ _ _ (os_umono _ _ _ _ _ _ _ _ _ _ _ G) (apply_calls_umono _ _ _ _ A)) as Hmono.
   destruct (ic_get (site_get (st_sites stc) (SSet, n, k)) h k (o_shape x)) as [[hit c1] ev] eqn:I.
   destruct (ic_get_spec _ _ _ _ _ _ _ I) as [Hsub Hhit].
   assert (Hv0 : IC_valid {| st_heap := h; st_sites := st_sites stc |}) by (rewrite Eh; destruct stc; exact Hv).
-  assert (Hc1 : forall e, In e (c_entries c1) -> entry_ok SSet h k e).
-  { intros e He. rewrite Eh. apply (cache_entries_ok stc SSet n k Hv e). auto. }
+  pose proof (IC_valid_heap_step _ h1 Hv0 Hmono) as Hv1. simpl in Hv1.
+  assert (Hc1 : forall e, In e (c_entries c1) -> entry_ok SSet h1 k e).
+  { intros e He. eapply entry_ok_mono; [exact Hmono|]. rewrite Eh. apply (cache_entries_ok stc SSet n k Hv e). auto. }
   destruct hit as [sl|].
   - destruct (Hhit sl eq_refl) as [-> (e & Hin & Hs & Hsl & Hcur)].
-    pose proof (Hc1 e Hin) as Hok.
+    pose proof (cache_entries_ok stc SSet n k Hv _ Hin) as Hok. rewrite <- Eh in Hok.
     rewrite <- Hs in Hcur. pose proof (current_entry_describes SSet h k e Hok Hcur) as Hd. rewrite Hs, Hsl in Hd.
     assert (Hr : set_regular sl) by (apply (Hreg x sl eq_refl); rewrite I; reflexivity).
     destruct (set_hit_sim h k o x sl v tr h' ok slu Hx Hd Hr G)
       as [(Ha & Hset & stg & r & Hst & Hn & Hh' & Hcase) | (Ha & Hp & stg & Hst & Ht & Ho & Hh')].
     + subst h'. destruct Hcase as [(f & -> & -> & ->) | (Hno & -> & ->)].
-      * assert (E : cached_set true stc (SSet, n, k) o v = Some (call_setter f v ++ [OBool true; OIC ev], stc)).
-        { unfold cached_set. rewrite <- Eh, Hx, I. cbn -[hit_store]. rewrite Ha, Hst, Hn, Hset. reflexivity. }
-        eexists; eexists; split; [exact E|]. rewrite !filter_visible_app. simpl. rewrite <- Eh.
-        repeat split; auto using umono_refl.
-      * assert (E : cached_set true stc (SSet, n, k) o v = Some ([OTypeErr; OIC ev], stc)).
-        { unfold cached_set. rewrite <- Eh, Hx, I. cbn -[hit_store]. rewrite Ha, Hst, Hn, Hset, Hno. reflexivity. }
-        eexists; eexists; split; [exact E|]. simpl. rewrite <- Eh. repeat split; auto using umono_refl.
-    + subst tr ok h'.
-      assert (E : cached_set true stc (SSet, n, k) o v =
+      * assert (E : cached_set rc true ft stc (SSet, n, k) o v =
+                    Some (call_setter f v ++ [OBool true; OIC ev], {| st_heap := h1; st_sites := st_sites stc |})).
+        { unfold cached_set. rewrite <- Eh, Hx, I. cbn -[hit_store apply_calls]. rewrite Ha, Hst, Hn, Hset.
+          cbn -[hit_store apply_calls]. rewrite A. reflexivity. }
+        eexists; eexists; split; [exact E|]. rewrite !filter_visible_app. simpl. repeat split; auto.
+      * rewrite apply_calls_nil in A. inversion A; subst h1.
+        assert (E : cached_set rc true ft stc (SSet, n, k) o v = Some ([OTypeErr; OIC ev], stc)).
+        { unfold cached_set. rewrite <- Eh, Hx, I. cbn -[hit_store apply_calls]. rewrite Ha, Hst, Hn, Hset, Hno. reflexivity. }
+        eexists; eexists; split; [exact E|]. simpl. rewrite <- Eh. repeat split; auto.
+    + subst tr ok h'. rewrite apply_calls_nil in A. inversion A; subst h1.
+      assert (E : cached_set rc true ft stc (SSet, n, k) o v =
                   Some ([OBool true; OIC ev],
                         {| st_heap := set_obj h o {| o_shape := o_shape x; o_store := stg; o_ext := o_ext x |};
                            st_sites := st_sites stc |})).
-      { unfold cached_set. rewrite <- Eh, Hx, I. cbn -[hit_store]. rewrite Ha, Hp, Hst. reflexivity. }
+      { unfold cached_set. rewrite <- Eh, Hx, I. cbn -[hit_store apply_calls]. rewrite Ha, Hp, Hst. reflexivity. }
       eexists; eexists; split; [exact E|]. simpl. repeat split; auto.
-      apply (IC_valid_heap_step {| st_heap := h; st_sites := st_sites stc |} _ Hv0 Hmono).
   - destruct (ok && sf_is_cacheable (s_attrs slu)) eqn:Ec.
-    + destruct (ic_set c1 h' (o_shape x') slu) as [c' ev'] eqn:Es.
-      assert (E : cached_set true stc (SSet, n, k) o v =
-                  Some (tr ++ [if ok then OBool true else OTypeErr; OIC (ev ++ ev')],
-                        {| st_heap := h'; st_sites := site_put (st_sites stc) (SSet, n, k) c' |})).
-      { unfold cached_set. rewrite <- Eh, Hx, I. cbn -[hit_store]. rewrite G. cbn -[hit_store]. rewrite Hx'.
-        cbn -[hit_store]. rewrite Ec, Es. reflexivity. }
-      eexists; eexists; split; [exact E|]. rewrite !filter_visible_app. simpl. repeat split; auto.
-      apply andb_true_iff in Ec as [-> Ec].
-      pose proof (IC_valid_heap_step {| st_heap := h; st_sites := st_sites stc |} h' Hv0 Hmono) as Hv1. simpl in Hv1.
-      apply (IC_valid_put {| st_heap := h'; st_sites := st_sites stc |} SSet n k c' Hv1). simpl. intros e He.
-      destruct (ic_set_entries _ _ _ _ _ _ Es e He) as [Hold | ->].
-      * eapply entry_ok_mono; eauto.
-      * apply fresh_entry_ok. exact (os_cacheable h o k v x tr h' slu x' Hx G Ec Hx').
-    + assert (E : cached_set true stc (SSet, n, k) o v =
-                  Some (tr ++ [if ok then OBool true else OTypeErr; OIC (ev ++ [])],
-                        {| st_heap := h'; st_sites := site_put (st_sites stc) (SSet, n, k) c1 |})).
-      { unfold cached_set. rewrite <- Eh, Hx, I. cbn -[hit_store]. rewrite G. cbn -[hit_store]. rewrite Hx'.
-        cbn -[hit_store]. rewrite Ec. reflexivity. }
-      eexists; eexists; split; [exact E|]. rewrite !filter_visible_app. simpl. repeat split; auto.
-      pose proof (IC_valid_heap_step {| st_heap := h; st_sites := st_sites stc |} h' Hv0 Hmono) as Hv1. simpl in Hv1.
-      apply (IC_valid_put {| st_heap := h'; st_sites := st_sites stc |} SSet n k c1 Hv1). simpl. intros e He.
-      eapply entry_ok_mono; eauto.
+    + destruct (ic_set rc SSet c1 h1 k (o_shape x') slu) as [[c' ev'] bad] eqn:Es.
+      assert (E : cached_set rc true ft stc (SSet, n, k) o v =
+                  Some (tr ++ [if ok then OBool true else OTypeErr; OIC (ev ++ ev')] ++ ghost bad,
+                        {| st_heap := h1; st_sites := site_put (st_sites stc) (SSet, n, k) c' |})).
+      { unfold cached_set. rewrite <- Eh, Hx, I. cbn -[hit_store apply_calls]. rewrite G. cbn -[hit_store apply_calls].
+        rewrite A. cbn -[hit_store apply_calls]. rewrite Hx'. cbn -[hit_store apply_calls]. rewrite Ec, Es. reflexivity. }
+      eexists; eexists; split; [exact E|]. refine (conj _ (conj _ _)).
+      { rewrite !filter_visible_app. simpl. rewrite visible_ghost. destruct ok; simpl; rewrite ?app_nil_r; reflexivity. }
+      { reflexivity. }
+      intro Hnb. apply (no_bad_ghost2 tr [_; _] bad) in Hnb.
+      apply (IC_valid_put {| st_heap := h1; st_sites := st_sites stc |} SSet n k c' Hv1). simpl. intros e He.
+      destruct (ic_set_entries _ _ _ _ _ _ _ _ _ _ Es e He) as [Hold | [-> Hbad]]; [auto|].
+      apply fresh_entry_ok. apply describes_b_sound. rewrite Hnb in Hbad.
+      destruct (describes_b SSet h1 k (o_shape x') slu); [reflexivity | discriminate].
+    + assert (E : cached_set rc true ft stc (SSet, n, k) o v =
+                  Some (tr ++ [if ok then OBool true else OTypeErr; OIC (ev ++ [])] ++ ghost false,
+                        {| st_heap := h1; st_sites := site_put (st_sites stc) (SSet, n, k) c1 |})).
+      { unfold cached_set. rewrite <- Eh, Hx, I. cbn -[hit_store apply_calls]. rewrite G. cbn -[hit_store apply_calls].
+        rewrite A. cbn -[hit_store apply_calls]. rewrite Hx'. cbn -[hit_store apply_calls]. rewrite Ec. reflexivity. }
+      eexists; eexists; split; [exact E|]. refine (conj _ (conj _ _)).
+      { rewrite !filter_visible_app. simpl. destruct ok; simpl; rewrite ?app_nil_r; reflexivity. }
+      { reflexivity. }
+      intros _. apply (IC_valid_put {| st_heap := h1; st_sites := st_sites stc |} SSet n k c1 Hv1). auto.
 Qed.
 
 (* ------------------------------------------------------------------------------------------- steps *)
@@ -643,40 +759,29 @@ Definition is_site_op (o : op) : bool :=
 
 (* operations that do not run a site: same outputs, same heap, a monotone heap step; the caches are untouched or only
    lose entries *)
-Lemma step_nonsite : forall o stc stu outs stu',
+Lemma step_nonsite : forall rc ft o stc stu outs stu',
   is_site_op o = false -> st_heap stc = st_heap stu ->
-  step false stu o = Some (outs, stu') ->
-  exists stc', step true stc o = Some (outs, stc') /\ st_heap stc' = st_heap stu' /\ umono (st_heap stc) (st_heap stc') /\
+  step rc false ft stu o = Some (outs, stu') ->
+  exists stc', step rc true ft stc o = Some (outs, stc') /\ st_heap stc' = st_heap stu' /\ umono (st_heap stc) (st_heap stc') /\
     (st_sites stc' = st_sites stc \/
      exists kd s k keep, o = OpEvict kd s k keep /\ st_heap stc' = st_heap stc /\
        st_sites stc' = site_put (st_sites stc) (kd, s, k)
          {| c_entries := filter_keep (c_entries (site_get (st_sites stc) (kd, s, k))) keep;
             c_mega := c_mega (site_get (st_sites stc) (kd, s, k)) |}).
 Proof.
-  intros o stc stu outs stu' Hs Hh H.
-  destruct o; try discriminate Hs; unfold step in *; rewrite <- Hh in H; unfold with_heap in *.
-  - (* alloc *)
-    destruct (match proto with Some q => negb (N.ltb q (lenN (h_objs (st_heap stc)))) | None => false end).
+  intros rc ft o stc stu outs stu' Hs Hh H.
+  assert (Hheap : forall o', o' = o -> (forall outs0 h0, heap_op (st_heap stc) o' = Some (outs0, h0) -> True) -> True) by auto.
+  destruct o; try discriminate Hs; unfold step in *; rewrite <- Hh in H; unfold with_heap in *;
+    try (match type of H with context [heap_op ?hh ?oo] =>
+           destruct (heap_op hh oo) as [[outs0 h0]|] eqn:E; [|discriminate];
+           inversion H; subst; eexists; split; [reflexivity|]; simpl; repeat split; auto;
+           eapply heap_op_umono; eauto end).
+  - destruct (match proto with Some q => negb (N.ltb q (lenN (h_objs (st_heap stc)))) | None => false end).
     + inversion H; subst. eexists; split; [reflexivity|]. simpl. auto using umono_refl.
     + destruct unique.
       * unfold new_ushape in *. inversion H; subst. eexists; split; [reflexivity|]. simpl. repeat split; auto.
         apply umono_app.
       * inversion H; subst. eexists; split; [reflexivity|]. simpl. repeat split; auto. apply umono_eq. reflexivity.
-  - destruct (get_obj (st_heap stc) o); [|inversion H; subst; eexists; split; [reflexivity|]; simpl; auto using umono_refl].
-    destruct (define_own_property (st_heap stc) o k d slot_new) as [[[h' sl] ok]|] eqn:E; [|discriminate].
-    inversion H; subst. eexists; split; [reflexivity|]. simpl. repeat split; auto. eapply dop_umono; eauto.
-  - destruct (get_obj (st_heap stc) o); [|inversion H; subst; eexists; split; [reflexivity|]; simpl; auto using umono_refl].
-    destruct (ordinary_delete (st_heap stc) o k) as [[h' ok]|] eqn:E; [|discriminate].
-    inversion H; subst. eexists; split; [reflexivity|]. simpl. repeat split; auto. eapply delete_umono; eauto.
-  - destruct (get_obj (st_heap stc) o); [|inversion H; subst; eexists; split; [reflexivity|]; simpl; auto using umono_refl].
-    destruct (ordinary_set_prototype_of (st_heap stc) o p) as [[h' ok]|] eqn:E; [|discriminate].
-    inversion H; subst. eexists; split; [reflexivity|]. simpl. repeat split; auto. eapply setproto_umono; eauto.
-  - destruct (get_obj (st_heap stc) o); [|inversion H; subst; eexists; split; [reflexivity|]; simpl; auto using umono_refl].
-    destruct (prevent_extensions (st_heap stc) o) as [h'|] eqn:E; [|discriminate].
-    inversion H; subst. eexists; split; [reflexivity|]. simpl. repeat split; auto. eapply prevent_umono; eauto.
-  - destruct (get_obj (st_heap stc) o); [|inversion H; subst; eexists; split; [reflexivity|]; simpl; auto using umono_refl].
-    destruct (freeze (st_heap stc) o) as [[h' ok]|] eqn:E; [|discriminate].
-    inversion H; subst. eexists; split; [reflexivity|]. simpl. repeat split; auto. eapply freeze_umono; eauto.
   - destruct (get_obj (st_heap stc) o) as [x|]; [|inversion H; subst; eexists; split; [reflexivity|]; simpl; auto using umono_refl].
     destruct (dump_props (o_store x) (shape_tab (st_heap stc) (o_shape x))); [|discriminate].
     inversion H; subst. eexists; split; [reflexivity|]. simpl. auto using umono_refl.
@@ -684,28 +789,29 @@ Proof.
     exists kind, s, k, keep. auto.
 Qed.
 
-Lemma sim_step : forall o stc stu outs_u stu',
+Lemma sim_step : forall rc ft o stc stu outs_u stu',
   IC_valid stc -> st_heap stc = st_heap stu -> hit_irregular stc o = false ->
-  step false stu o = Some (outs_u, stu') ->
-  exists outs_c stc', step true stc o = Some (outs_c, stc') /\
-    filter visible outs_c = filter visible outs_u /\ st_heap stc' = st_heap stu' /\ IC_valid stc'.
+  step rc false ft stu o = Some (outs_u, stu') ->
+  exists outs_c stc', step rc true ft stc o = Some (outs_c, stc') /\
+    filter visible outs_c = filter visible outs_u /\ st_heap stc' = st_heap stu' /\
+    (existsb is_bad outs_c = false -> IC_valid stc').
 Proof.
-  intros o stc stu outs_u stu' Hv Hh Hirr H.
+  intros rc ft o stc stu outs_u stu' Hv Hh Hirr H.
   destruct (is_site_op o) eqn:Hs.
   - destruct o; try discriminate Hs; cbn [step] in *.
-    + destruct (sim_get false stc stu SGet s k o outs_u stu') as (oc & stc' & E & Hvis & Hc & Hu & Hv'); auto.
+    + destruct (sim_get rc ft false stc stu SGet s k o outs_u stu') as (oc & stc' & E & Hvis & Hc & Hv'); auto.
       * discriminate.
       * eapply hit_irr_get; eauto.
-      * exists oc, stc'. repeat split; auto. congruence.
-    + destruct (sim_set stc stu s k o v outs_u stu') as (oc & stc' & E & Hvis & Hc & Hv' & _); auto.
+      * exists oc, stc'. repeat split; auto.
+    + destruct (sim_set rc ft stc stu s k o v outs_u stu') as (oc & stc' & E & Hvis & Hc & Hv'); auto.
       * eapply hit_irr_set; eauto.
       * exists oc, stc'. repeat split; auto.
-    + destruct (sim_get true stc stu SGlobal s k GLOBAL outs_u stu') as (oc & stc' & E & Hvis & Hc & Hu & Hv'); auto.
+    + destruct (sim_get rc ft true stc stu SGlobal s k GLOBAL outs_u stu') as (oc & stc' & E & Hvis & Hc & Hv'); auto.
       * discriminate.
       * eapply hit_irr_get; eauto.
-      * exists oc, stc'. repeat split; auto. congruence.
-  - destruct (step_nonsite o stc stu outs_u stu' Hs Hh H) as (stc' & E & Hheap & Hmono & Hsites).
-    exists outs_u, stc'. repeat split; auto.
+      * exists oc, stc'. repeat split; auto.
+  - destruct (step_nonsite rc ft o stc stu outs_u stu' Hs Hh H) as (stc' & E & Hheap & Hmono & Hsites).
+    exists outs_u, stc'. repeat split; auto. intros _.
     destruct Hsites as [Hsame | (kd & s & k & keep & -> & Hh' & Hput)].
     + destruct stc' as [h' ss']. simpl in *. subst ss'. apply IC_valid_heap_step; auto.
     + destruct stc' as [h' ss']. simpl in Hh', Hput. rewrite Hput, Hh'.
@@ -713,65 +819,45 @@ Proof.
       eapply cache_entries_ok; eauto.
 Qed.
 
-Lemma run_sim : forall ops stc stu i,
-  IC_valid stc -> st_heap stc = st_heap stu -> first_irregular stc ops i = None ->
-  ~ In None (run false stu ops) ->
-  observable (run true stc ops) = observable (run false stu ops).
+Lemma run_sim : forall rc ft ops stc stu i j,
+  IC_valid stc -> st_heap stc = st_heap stu -> first_irregular rc ft stc ops i = None ->
+  first_bad_store (run rc true ft stc ops) j = None ->
+  ~ In None (run rc false ft stu ops) ->
+  observable (run rc true ft stc ops) = observable (run rc false ft stu ops).
 Proof.
-  induction ops as [|o r IH]; intros stc stu i Hv Hh Hk Hnp; [reflexivity|].
+  induction ops as [|o r IH]; intros stc stu i j Hv Hh Hk Hb Hnp; [reflexivity|].
   cbn [run first_irregular] in *.
   destruct (hit_irregular stc o) eqn:Hirr; [discriminate|].
-  destruct (step false stu o) as [[outs_u stu']|] eqn:Eu.
+  destruct (step rc false ft stu o) as [[outs_u stu']|] eqn:Eu.
   2:{ exfalso. apply Hnp. left. reflexivity. }
-  destruct (sim_step o stc stu outs_u stu' Hv Hh Hirr Eu) as (oc & stc' & Ec & Hvis & Hheap & Hv').
-  rewrite Ec in *. unfold observable in *. cbn [map]. rewrite Hvis. f_equal.
-  apply (IH stc' stu' (i + 1)); auto. intro Hin. apply Hnp. right. exact Hin.
+  destruct (sim_step rc ft o stc stu outs_u stu' Hv Hh Hirr Eu) as (oc & stc' & Ec & Hvis & Hheap & Hv').
+  rewrite Ec in *. cbn [first_bad_store] in Hb. change (fun o0 : out => match o0 with OBadStore => true | _ => false end) with is_bad in Hb.
+  destruct (existsb is_bad oc) eqn:Eb; [discriminate|].
+  unfold observable in *. cbn [map]. rewrite Hvis. f_equal.
+  apply (IH stc' stu' (i + 1) (j + 1)); auto. intro Hin. apply Hnp. right. exact Hin.
 Qed.
 
-Lemma ic_transparent_lemma : forall ops,
-  ~ Irregular ops -> ~ In None (run_uncached ops) ->
-  observable (run_cached ops) = observable (run_uncached ops).
+(* transparency for every re-check mode, every function table, every history: the only mutation-related condition is that no
+   step stores an entry that does not describe the receiver (decidable: BadStore) *)
+Lemma ic_transparent_modes_lemma : forall rc ft ops,
+  ~ Irregular rc ft ops -> ~ BadStore rc ft ops -> ~ In None (run rc false ft init ops) ->
+  observable (run rc true ft init ops) = observable (run rc false ft init ops).
 Proof.
-  intros ops Hk Hnp. unfold run_cached, run_uncached.
-  apply (run_sim ops init init 0); auto using IC_valid_init.
-  unfold Irregular in Hk. destruct (first_irregular init ops 0); [exfalso; apply Hk; discriminate | reflexivity].
+  intros rc ft ops Hk Hb Hnp.
+  apply (run_sim rc ft ops init init 0 0); auto using IC_valid_init.
+  - unfold Irregular in Hk. destruct (first_irregular rc ft init ops 0); [exfalso; apply Hk; discriminate | reflexivity].
+  - unfold BadStore in Hb. destruct (first_bad_store (run rc true ft init ops) 0); [exfalso; apply Hb; discriminate | reflexivity].
 Qed.
 
-(* every step keeps the invariant (stated for the cached run alone) *)
-Lemma IC_valid_step_lemma : forall o st outs st',
-  IC_valid st -> hit_irregular st o = false -> step false st o <> None -> step true st o = Some (outs, st') -> IC_valid st'.
+(* every step that stores no non-describing entry keeps the invariant *)
+Lemma IC_valid_step_lemma : forall rc ft o st outs st',
+  IC_valid st -> hit_irregular st o = false -> step rc false ft st o <> None ->
+  step rc true ft st o = Some (outs, st') -> existsb is_bad outs = false -> IC_valid st'.
 Proof.
-  intros o st outs st' Hv Hk Hu E.
-  destruct (step false st o) as [[ou su]|] eqn:Eu; [|contradiction].
-  destruct (sim_step o st st ou su Hv eq_refl Hk Eu) as (oc & stc' & Ec & _ & _ & Hv').
-  rewrite E in Ec. inversion Ec; subst. exact Hv'.
-Qed.
-
-(* ------------------------------------------------------------------------------------------- a history with hits *)
-Definition w_clean : list op :=
-  [OpAlloc false None; OpDefine 2 0 (dd (VNum 1) true true true); OpDefine 2 1 (da (VFun 1) (VFun 2) true true);
-   OpAlloc false (Some 2); OpAlloc false (Some 2); OpDefine 4 2 (dd (VNum 5) true true true);
-   OpGet 0 0 3; OpGet 0 0 3; OpGet 0 0 4; OpGet 0 0 4; OpGet 0 0 2; OpGet 0 0 2;
-   OpSet 0 1 3 (VNum 7); OpSet 0 1 3 (VNum 8);
-   OpSet 0 2 4 (VNum 6); OpSet 0 2 4 (VNum 9); OpGet 1 2 4; OpGet 1 2 4;
-   OpDelete 4 2; OpGet 1 2 4; OpDefine 4 3 (dd (VNum 3) true true true); OpGet 0 0 4;
-   OpDefine 2 0 (da (VFun 3) (VFun 4) true true); OpGet 0 0 3; OpGet 0 0 3; OpDelete 2 1; OpSet 0 1 3 (VNum 1);
-   OpDefine 1 0 (dd (VNum 4) true true true); OpGetGlobal 0 0; OpGetGlobal 0 0;
-   OpDefine 1 0 {| d_kind := KData None (Some false); d_enum := None; d_conf := None |}; OpSet 1 0 1 (VNum 5); OpGetGlobal 0 0;
-   OpAlloc false None; OpDefine 5 0 (dd (VNum 1) false true true);
-   OpAlloc false None; OpDefine 6 0 (dd (VNum 1) true false true);
-   OpAlloc true None; OpDefine 7 0 (dd (VNum 1) true true false);
-   OpGet 0 0 5; OpGet 0 0 6; OpGet 0 0 7; OpGet 0 0 2; OpDump 2; OpDump 4].
-Definition hits (r : list (option (list out))) : nat :=
-  length (filter (fun x => match x with
-                           | Some l => existsb (fun o => match o with OIC (EvHit :: _) => true | _ => false end) l
-                           | None => false end) r).
-Lemma clean_history_lemma : ~ Irregular w_clean /\ ~ In None (run_uncached w_clean) /\ hits (run_cached w_clean) = 8%nat.
-Proof.
-  split; [|split].
-  - unfold Irregular. vm_compute. intro H. apply H. reflexivity.
-  - vm_compute. intuition discriminate.
-  - vm_compute. reflexivity.
+  intros rc ft o st outs st' Hv Hk Hu E Hb.
+  destruct (step rc false ft st o) as [[ou su]|] eqn:Eu; [|contradiction].
+  destruct (sim_step rc ft o st st ou su Hv eq_refl Hk Eu) as (oc & stc' & Ec & _ & _ & Hv').
+  rewrite E in Ec. inversion Ec; subst. auto.
 Qed.
 
 Lemma set_keeps_shape_lookups_lemma : forall fuel h o k v r sl tr h' ok sl' s k' x,
